@@ -692,6 +692,26 @@ pub fn run(suite: &str, thorough: bool, seed: u64, shard: usize, nshards: usize,
                     code += stride;
                 }
             }
+            // three files in place (every combination of the three well-formed contents: same qualified
+            // name defined twice with different kinds, importers of it), then every single operation
+            for x in 0..3usize {
+                for y in 0..3usize {
+                    for z in 0..3usize {
+                        for last in alphabet.iter() {
+                            idx += 1;
+                            if mine(idx) {
+                                let ops = vec![
+                                    HOp::Add("i1".to_owned(), contents[x].to_owned()),
+                                    HOp::Add("i2".to_owned(), contents[y].to_owned()),
+                                    HOp::Add("i3".to_owned(), contents[z].to_owned()),
+                                    last.clone(),
+                                ];
+                                em.case((1000000 + idx) as u64, crate::store_ops::history_case(&ops, &dir));
+                            }
+                        }
+                    }
+                }
+            }
             // random long histories over generated projects
             let n = share(if thorough { 3000 } else { 60 });
             for _ in 0..n {
@@ -1082,6 +1102,8 @@ pub fn run(suite: &str, thorough: bool, seed: u64, shard: usize, nshards: usize,
                     continue; // the siblings must be well-formed
                 }
                 let is_enum = matches!(d.item.kind, doc::ItemKind::Enum);
+                // malformed by construction (no need to ask the implementation under test)
+                let mut known_malformed = false;
                 let g: Vec<String> = if !is_enum && r.chance(1, 6) {
                     // generic types with the wrong number of parameters, written as a member would be
                     let tys = ["String", "int", "Foo", "a.B", "List<String>", "int[]"];
@@ -1132,12 +1154,21 @@ pub fn run(suite: &str, thorough: bool, seed: u64, shard: usize, nshards: usize,
                     let sp = rt.spans.iter().find(|sp| matches!(sp.what, "method" | "field" | "enumel")).unwrap();
                     let mut toks: Vec<String> = rt.toks[sp.first_with_ann..=sp.last].iter().map(|t| t.text.clone()).collect();
                     let k = r.below(toks.len());
-                    match r.below(3) {
+                    match r.below(4) {
                         0 => {
                             toks.remove(k);
                         }
                         1 => toks[k] = (*r.pick(&vocab)).to_owned(),
-                        _ => toks.insert(k, (*r.pick(&vocab)).to_owned()),
+                        2 => toks.insert(k, (*r.pick(&vocab)).to_owned()),
+                        _ => {
+                            // a junk prefix that could begin a member, directly followed by a complete
+                            // member: recovery resumes on the unexpected token without dropping anything
+                            let starts = ["foo", "Bar", "int", "String", "x1", "a.B", "List"];
+                            for _ in 0..r.range(1, 2) {
+                                toks.insert(0, (*r.pick(&starts)).to_owned());
+                            }
+                            known_malformed = !is_enum;
+                        }
                     }
                     // no terminator or brace inside
                     toks.retain(|t| t != ";" && (t != "," || !is_enum) && t != "{" && t != "}");
@@ -1154,7 +1185,7 @@ pub fn run(suite: &str, thorough: bool, seed: u64, shard: usize, nshards: usize,
                 let mut pp: Parser<String> = Parser::new();
                 pp.add_content("p".to_owned(), &ptext);
                 let pres = &pp.verif_parse_results()["p"];
-                if pres.diagnostics.is_empty() {
+                if pres.diagnostics.is_empty() && !known_malformed {
                     continue; // a well-formed member
                 }
                 let pos = r.below(d.item.members.len() + 1);
